@@ -879,6 +879,16 @@ class DFA:
                 fake_start[to_else] = chained_dfa.starting_state
                 fake_start[to_else].fallthrough(True).handles_else()
                 chained_dfa.starting_state = fake_start
+            elif isinstance(chained_dfa.starting_state, DFConditionPoint) and not valid and not to_else:
+                # Nothing follows the condition point yet (all of its branches end in actions only, e.g. a yield), so there are no
+                # on_values to borrow: enter it on anything that is not otherwise claimed. (Copying its conditional transitions below
+                # would lose the conditions.)
+                fake_start = DFState()
+                chained_dfa.add(fake_start)
+
+                fake_start[DFTransition.Else] = chained_dfa.starting_state
+                fake_start[DFTransition.Else].fallthrough(True).handles_else()
+                chained_dfa.starting_state = fake_start
 
         # If the caller wants to chain actions into a DFA which potentially matches the empty string, we have to place the actions onto 
         # transitions going into the sub_states, instead of on transitions coming out of them that we generate. This adds more opportunities
